@@ -71,6 +71,13 @@ type Exec struct {
 	nameTypes     map[string]types.Type
 	kindUsed      bool
 	inSpec        int
+	jsonSeen      map[int]bool
+	oblFacts      map[int]bool
+	inTypeInv     int
+	ownObjs       map[int]bool
+	invAssumed    map[string]bool
+	invWritten    map[string]invObj
+	invOrder      []string
 	strTheory     bool
 	strLits       map[string]string
 	sweepTags     []string
@@ -91,6 +98,11 @@ func NewExec(p *Prog, fn *ssa.Function) *Exec {
 		x.strTheory = true
 	}
 	x.strLits = map[string]string{}
+	x.ownObjs = map[int]bool{}
+	x.jsonSeen = map[int]bool{}
+	x.oblFacts = map[int]bool{}
+	x.invAssumed = map[string]bool{}
+	x.invWritten = map[string]invObj{}
 	return x
 }
 
@@ -149,7 +161,11 @@ func (x *Exec) oblige(fr *Frame, st *State, class, detail string, tags []string,
 	}
 	x.obls = append(x.obls, o)
 	// assume after assert
+	n0 := len(x.facts)
 	x.addFactRaw(full)
+	if len(x.facts) > n0 {
+		x.oblFacts[n0] = true
+	}
 	return o
 }
 
@@ -207,6 +223,10 @@ func (x *Exec) runOnce(tag, caseParam string, caseLen int) {
 	x.curPC = st.pc
 	fr.entry = st.clone()
 	x.entryState = fr.entry
+	// implicit precondition: a pointer receiver that the body never compares with nil is non-nil
+	if x.prog.implicitRecvNonNil(fn) {
+		x.addFactRaw(x.tt.Not(x.tt.Eq(asTerm(fr.args[0]), x.tt.IntLit(0))))
+	}
 	// requires
 	if x.con != nil {
 		for _, c := range x.con.Requires {
@@ -577,6 +597,11 @@ func (x *Exec) runLoopInv(fr *Frame, L *Loop, ins []edge, spec *LoopSpec) []edge
 	x.recorders = x.recorders[:len(x.recorders)-1]
 	x.quiet = savedQuiet
 	x.facts = x.facts[:savedFacts]
+	for k := range x.oblFacts {
+		if k >= savedFacts {
+			delete(x.oblFacts, k)
+		}
+	}
 	x.obls = x.obls[:savedObls]
 	x.oblCount = savedCounts
 	x.notes = savedNotes
@@ -771,6 +796,10 @@ func (x *Exec) maxSymID(t *Term) int {
 func (x *Exec) finish(fr *Frame) {
 	con := fr.con
 	rs := x.mergeReturn(fr)
+	if rs != nil && fr.depth == 0 {
+		x.curPC = rs.st.pc
+		x.checkTypeInvs(fr, rs.st)
+	}
 	if rs != nil && con != nil {
 		x.curPC = rs.st.pc
 		for _, c := range con.Ensures {
